@@ -12,6 +12,7 @@ import (
 	"math/rand"
 	"os"
 	"strconv"
+	"testing/iotest"
 )
 
 // ints projects a byte string to a JSON array of ints (section 4.2 of DESIGN.md).
@@ -183,3 +184,22 @@ func failedWriteFirst(write func(w io.Writer) error) {
 		write(&limitWriter{left: max(full.Len()-1, 0)})
 	})
 }
+
+// readDelivery: how the read events of the codec drivers hand the text to the reader under test (0: all at once; 1: one byte per Read;
+// 2: three bytes per Read; 3: 4096 bytes per Read, the last one together with io.EOF). Set per session by the drivers.
+var readDelivery int
+
+func deliver(data []byte) io.Reader {
+	switch readDelivery {
+	case 1:
+		return iotest.OneByteReader(bytes.NewReader(data))
+	case 2:
+		return &chunkReader{data: data, next: func() int { return 3 }}
+	case 3:
+		return &chunkReader{data: data, next: func() int { return 4096 }, withEOF: true}
+	}
+	return bytes.NewReader(data)
+}
+
+// grown: what a caller gets who appends to a slice it was given (the append goes into the slice's spare capacity if it has any)
+func grown(b []byte) []byte { return append(b, '!', '?') }
